@@ -330,7 +330,7 @@ pub fn run(out: &mut Out, tier: &str, rng: &mut Rng) {
             let s = format!("{}-{}", l, sc);
             out.case(DIR_OP, &[s.as_bytes()], || direction(s.as_bytes()));
         }
-        for rg in rs.iter().take(if thorough { 400 } else { 80 }) {
+        for rg in rs.iter().take(400) {
             let s = format!("{}-{}", l, rg);
             out.case(DIR_OP, &[s.as_bytes()], || direction(s.as_bytes()));
         }
